@@ -497,8 +497,8 @@ def leaf_specs(tier, classes=None):
                                 ds, fs = batch + list(m), list(n)
                                 for op in ("ConvolveData", "ConvolveDataAdjoint", "ConvolveFilter", "ConvolveFilterAdjoint"):
                                     add(dict(op=op, dshape=ds, fshape=fs, mode=mode, strides=st, mc=False))
-                                    if D == 1 and not batch and st in (None, [2]):
-                                        # real-dtype captured array (filter resp. data), complex inputs
+                                    if D == 1 and not batch and st in (None, [2]) and op.startswith("ConvolveData"):
+                                        # real-dtype filter, complex inputs (real DATA with a complex filter is refused loudly by the library)
                                         add(dict(op=op, dshape=ds, fshape=fs, mode=mode, strides=st, mc=False, real=True))
     # Wavelet
     waves = ("db4", "haar", "db2", "sym4", "coif1")
